@@ -449,4 +449,125 @@ theorem strxToUint32N_uint32ToStrx (val : Nat) (out : Bytes) (hv : val < 2 ^ 32)
     simp [hne, hmax, hexDigitsU_length, hp.1]
   · simp only [hfit, if_false] at hp; exact absurd hp hn
 
+/-! ### MHD_uint8_to_str_pad -/
+
+def digitChar (d : Nat) : UInt8 := UInt8.ofNat (0x30 + d)
+
+/-- what the three stages write (mirror of the control flow) -/
+def padOnes (v : Nat) : Bytes := [digitChar v]
+def padTens (v md : Nat) : Bytes :=
+  if v / 10 = 0 then (if 2 ≤ md then 0x30 :: padOnes v else padOnes v) else digitChar (v / 10) :: padOnes (v % 10)
+def padAll (v md : Nat) : Bytes :=
+  if v / 100 = 0 then (if 3 ≤ md then 0x30 :: padTens v md else padTens v md)
+  else digitChar (v / 100) :: padTens (v % 100) 2
+
+/-- reference: `val` in decimal, left-padded with '0' to at least `pad` (and at least one) digits -/
+def padSpec (val pad : Nat) : Bytes :=
+  decDigits (max (if 100 ≤ val then 2 else if 10 ≤ val then 1 else 0) (pad - 1)) val
+
+theorem padAll_eq_spec : ∀ (val : Fin 256) (pad : Fin 4), padAll val.val pad.val = padSpec val.val pad.val := by
+  decide +kernel
+
+/-- a stage that appends `d` at `pos` -/
+def StagePost (out : Bytes) (pos : Nat) (d : Bytes) (r : Nat × Bytes) : Prop :=
+  r.2.length = out.length ∧
+  if pos + d.length ≤ out.length then r.1 = pos + d.length ∧ r.2.take r.1 = out.take pos ++ d else r.1 = 0
+
+theorem padOnes_spec (v pos : Nat) (out : Bytes) (hp : pos ≤ out.length) :
+    ∃ r, uint8PadOnes v pos out = .ok r ∧ StagePost out pos (padOnes v) r := by
+  unfold uint8PadOnes
+  by_cases h : out.length ≤ pos
+  · refine ⟨(0, out), by simp [h], rfl, ?_⟩
+    have : ¬ pos + (padOnes v).length ≤ out.length := by simp [padOnes]; omega
+    simp only [this, if_false]
+  · have hw : pos < out.length := by omega
+    refine ⟨(pos + 1, out.set pos (digitChar v)), by simp [h, wr_ok _ hw, digitChar], by simp, ?_⟩
+    have : pos + (padOnes v).length ≤ out.length := by simp [padOnes]; omega
+    simp only [this, if_true]
+    exact ⟨by simp [padOnes], by rw [take_set_succ _ _ _ hw]; rfl⟩
+
+theorem stage_after_write (out : Bytes) (pos : Nat) (c : UInt8) (d : Bytes) (hw : pos < out.length)
+    (r : Nat × Bytes) (h : StagePost (out.set pos c) (pos + 1) d r) : StagePost out pos (c :: d) r := by
+  obtain ⟨h1, h2⟩ := h
+  refine ⟨by simpa using h1, ?_⟩
+  simp only [List.length_set] at h2
+  by_cases hf : pos + 1 + d.length ≤ out.length
+  · have hf' : pos + (c :: d).length ≤ out.length := by simp; omega
+    simp only [hf, hf', if_true] at h2 ⊢
+    refine ⟨by simp; omega, ?_⟩
+    rw [h2.2, take_set_succ _ _ _ hw]; simp
+  · have hf' : ¬ pos + (c :: d).length ≤ out.length := by simp; omega
+    simp only [hf, hf', if_false] at h2 ⊢
+    exact h2
+
+theorem padOnes_length (v : Nat) : (padOnes v).length = 1 := rfl
+
+theorem padTens_pos (v md : Nat) : 0 < (padTens v md).length := by
+  unfold padTens
+  by_cases h1 : v / 10 = 0 <;> by_cases h2 : 2 ≤ md <;> simp [h1, h2, padOnes]
+
+theorem padTens_spec (v md pos : Nat) (out : Bytes) (hp : pos ≤ out.length) :
+    ∃ r, uint8PadTens v md pos out = .ok r ∧ StagePost out pos (padTens v md) r := by
+  unfold uint8PadTens
+  by_cases h : out.length ≤ pos
+  · refine ⟨(0, out), by simp [h], rfl, ?_⟩
+    have := padTens_pos v md
+    have : ¬ pos + (padTens v md).length ≤ out.length := by omega
+    simp only [this, if_false]
+  · have hw : pos < out.length := by omega
+    simp only [h, if_false, pure_eq_ok, bind_ok']
+    by_cases h2 : v / 10 = 0
+    · by_cases h3 : 2 ≤ md
+      · simp only [h2, h3, if_true, wr_ok _ hw, bind_ok', padTens]
+        obtain ⟨r, hr, hpst⟩ := padOnes_spec v (pos + 1) (out.set pos 0x30) (by simp; omega)
+        exact ⟨r, hr, stage_after_write out pos _ _ hw r hpst⟩
+      · simp only [h2, h3, if_true, if_false, padTens]
+        exact padOnes_spec v pos out hp
+    · simp only [h2, if_false, wr_ok _ hw, bind_ok', padTens]
+      obtain ⟨r, hr, hpst⟩ := padOnes_spec (v % 10) (pos + 1) (out.set pos (UInt8.ofNat (0x30 + v / 10))) (by simp; omega)
+      exact ⟨r, hr, stage_after_write out pos _ _ hw r hpst⟩
+
+theorem padAll_pos (v md : Nat) : 0 < (padAll v md).length := by
+  unfold padAll
+  have h1 := padTens_pos v md
+  have h2 := padTens_pos (v % 100) 2
+  by_cases h : v / 100 = 0 <;> by_cases h3 : 3 ≤ md <;> simp [h, h3] <;> omega
+
+theorem uint8ToStrPad_mirror (val pad : Nat) (out : Bytes) :
+    ∃ r, uint8ToStrPad val pad out = .ok r ∧ StagePost out 0 (padAll val pad) r := by
+  unfold uint8ToStrPad
+  by_cases h0 : out.length = 0
+  · refine ⟨(0, out), by simp [h0], rfl, ?_⟩
+    have := padAll_pos val pad
+    have : ¬ 0 + (padAll val pad).length ≤ out.length := by omega
+    simp only [this, if_false]
+  · have hw : 0 < out.length := by omega
+    simp only [h0, if_false, pure_eq_ok, bind_ok']
+    by_cases h1 : val / 100 = 0
+    · by_cases h3 : 3 ≤ pad
+      · simp only [h1, h3, if_true, wr_ok _ hw, bind_ok', padAll]
+        obtain ⟨r, hr, hpst⟩ := padTens_spec val pad 1 (out.set 0 0x30) (by simp; omega)
+        exact ⟨r, hr, stage_after_write out 0 _ _ hw r hpst⟩
+      · simp only [h1, h3, if_true, if_false, padAll]
+        exact padTens_spec val pad 0 out (by omega)
+    · simp only [h1, if_false, wr_ok _ hw, bind_ok', padAll]
+      obtain ⟨r, hr, hpst⟩ := padTens_spec (val % 100) 2 1 (out.set 0 (UInt8.ofNat (0x30 + val / 100))) (by simp; omega)
+      exact ⟨r, hr, stage_after_write out 0 _ _ hw r hpst⟩
+
+/-- `MHD_uint8_to_str_pad`: for every value, every permitted `min_digits` (0..3) and every
+    buffer: the value in decimal, zero-padded to `max (min_digits, 1)` digits, iff it fits;
+    0 iff it does not. -/
+theorem uint8ToStrPad_spec (val pad : Nat) (out : Bytes) (hv : val < 256) (hp : pad ≤ 3) :
+    Wrote (uint8ToStrPad val pad out) out
+      (if (padSpec val pad).length ≤ out.length then some (padSpec val pad) else none) := by
+  obtain ⟨⟨n, o⟩, hr, hl, hpst⟩ := uint8ToStrPad_mirror val pad out
+  have he := padAll_eq_spec ⟨val, hv⟩ ⟨pad, by omega⟩
+  simp only at he
+  rw [he] at hpst
+  refine ⟨n, o, hr, hl, ?_⟩
+  simp only [Nat.zero_add, List.take_zero, List.nil_append] at hpst
+  by_cases hf : (padSpec val pad).length ≤ out.length
+  · simp only [hf, if_true] at hpst ⊢; exact hpst
+  · simp only [hf, if_false] at hpst ⊢; exact hpst
+
 end Mhd.Str
